@@ -15,3 +15,7 @@ package util
 //@   where found == mhas(self, key)
 //@   where found ==> value == mval(self, key, value)
 //@   ensures r0 == ferr
+
+// ---- arithmetic lemmas (proved by the solver in every check that uses them) ----
+//@ lemma aligned_mod: forall(a, x, m, trigger(x % m, a % m), m > 0 && a % m == 0 && a <= x && x < a + m ==> x % m == x - a)
+//@ lemma aligned_next: forall(a, m, trigger((a + m) % m), m > 0 && a % m == 0 ==> (a + m) % m == 0)
